@@ -149,6 +149,8 @@ def _next_step(r, model, fs, ns, nfaults):
         ops += ["compress"] * 4
     if model["cbin"] == "complete":
         ops += ["decompress"] * 2 + ["to_scratch"] * 2 + ["inplace_cycle"]
+    if model["bin"] == "complete" and model["cbin"] == "complete" and model.get("chunk_duration"):
+        ops += ["recompress"] * 2
     if not ops:
         return None
     op = r.choice(ops)
@@ -157,6 +159,13 @@ def _next_step(r, model, fs, ns, nfaults):
         cs, cd = _chunking(r, ns, fs)
         st.update({"chunk_samples": cs, "chunk_duration": cd, "n_threads": r.choice([1, 2, 4]),
                    "check_after": r.random() < 0.7, "via": r.choice(["kwargs", "kwargs", "config"])})
+    if op == "recompress":
+        # compress again over an existing complete pair, with the chunking that pair was made with
+        # (so that the rewritten .ch is byte-identical and the unchanged code has no window of harm)
+        st = {"op": "compress", "recompress": True, "chunk_samples": model["chunk_samples"],
+              "chunk_duration": model["chunk_duration"], "n_threads": r.choice([1, 2, 4]),
+              "check_after": r.random() < 0.7, "via": r.choice(["kwargs", "config"])}
+        op = "compress"
     if op == "compress":
         st["keep_original"] = r.random() < 0.5
     if op == "decompress":
@@ -177,6 +186,9 @@ def _next_step(r, model, fs, ns, nfaults):
 def _precond(st, model):
     op = st["op"]
     if op == "compress":
+        if st.get("recompress"):
+            return model["bin"] == "complete" and model["cbin"] == "complete" and \
+                model.get("chunk_duration") == st.get("chunk_duration")
         return model["bin"] == "complete" and (model["cbin"] == "absent" or st.get("retry"))
     if op == "decompress":
         return model["cbin"] == "complete" and (model["bin"] == "absent" or st.get("overwrite"))
@@ -260,7 +272,7 @@ def _run(plan, base):
     session.pin_dependencies(W.cfg, pool_seed=plan["seed"] % 1000)
     W.set_config()
     rsel = rng_of(sel_seed)
-    model = {"bin": "complete", "cbin": "absent", "chunk_samples": None}
+    model = {"bin": "complete", "cbin": "absent", "chunk_samples": None, "chunk_duration": None}
     log = []
     executed = []
     stats = {"faults": {}, "sites": {}, "probes": {}, "outcomes": {}, "distinct": [], "steps": 0}
@@ -371,6 +383,11 @@ def _exec_step(W, st, model, log, stats, bump, seed, progress=False):
         if not legit:
             clause = "C02.A2" if op in ("compress", "to_scratch") else "C02.L"
             raise Violation(clause, f"{sig0}:bin-corrupt", "the .bin no longer equals the original | " + ctx)
+    if st.get("recompress") and after["cbin"] != "complete":
+        bump("probes", "recompress_over_existing_pair")
+        raise Violation("C02.A2", f"{sig0}:recompress-damaged-existing", "a complete .cbin/.ch pair existed before the re-compression; afterwards the final-name .cbin is no longer a complete recording | " + ctx)
+    if st.get("recompress"):
+        bump("probes", "recompress_over_existing_pair")
     if after["bin"] != "complete" and after["cbin"] != "complete":
         inplace = not keep
         raise Violation("C02.A1" if inplace else "C02.A3", f"{sig0}:no-complete-copy",
@@ -415,8 +432,11 @@ def _exec_step(W, st, model, log, stats, bump, seed, progress=False):
     # ---- model := observation
     model["bin"] = {"other": "tainted"}.get(after["bin"], after["bin"])
     model["cbin"] = after["cbin"]
-    if op in ("compress", "inplace_cycle") and after["cbin"] == "complete":
+    if op in ("compress", "inplace_cycle") and after["cbin"] == "complete" and not (failed and before["cbin"] == "complete"):
         model["chunk_samples"] = st.get("chunk_samples")
+        model["chunk_duration"] = st.get("chunk_duration")
+    if after["cbin"] != "complete":
+        model["chunk_samples"] = model["chunk_duration"] = None
     # scratch outputs are consumed by the oracle and removed so that later to_scratch steps start clean or dirty by choice
     return fired is not None
 
